@@ -66,7 +66,10 @@ import (
 //	    everything in between is a boundary document and gets NO verdict. A must-be-gone document that is
 //	    still present is re-checked after another 10 intervals + 400 ms before it is reported.
 //
-// Witness classes (all Property C19): ttl-clock:kept-expired, ttl-clock:stalled-after-session,
+// A document that must be present but is gone WITHOUT a delete event in the change log was not removed by the
+// expiry: it is a lost acknowledged write (Property C04, ttl-clock:ack-lost; see ttlclock_clients.go).
+//
+// Witness classes (Property C19): ttl-clock:kept-expired, ttl-clock:stalled-after-session,
 // ttl-clock:removed-fresh, ttl-clock:non-date-removed, ttl-clock:non-ttl-collection-touched,
 // ttl-clock:pass-incomplete (exact, from the commit log of the wrapped store: a pass that removed something left
 // a document that was already expired when the pass began), ttl-clock:delete-events (≠ exactly one delete event
@@ -265,6 +268,9 @@ func (s *tcScn) violP(prop, witness, what, detail string) {
 		return
 	}
 	s.tags = append(s.tags, "VIOLATION:"+witness)
+	if prop != "C19" {
+		s.tags = append(s.tags, "VIOLATION/"+prop+"/"+s.p.Mode+":"+witness)
+	}
 	s.viols = append(s.viols, run.Violation{Property: prop, What: what, Witness: witness, Req: s.p.String(), Detail: clip(detail, 1500)})
 }
 
@@ -638,6 +644,7 @@ func (s *tcScn) insertAll(ctx context.Context) error {
 // ---- snapshots and the oracle -----------------------------------------------------------------------
 
 type tcSnap struct {
+	deleted map[lungo.Handle]map[string]int // delete events per document in the snapshot's change log
 	t0, t1  int64
 	slowEnd int64
 	cat     *lungo.Catalog
@@ -660,6 +667,22 @@ func (s *tcScn) snapshot() tcSnap {
 			}
 		}
 		sn.present[h] = m
+	}
+	sn.deleted = map[lungo.Handle]map[string]int{}
+	if ns := cat.Namespaces[lungo.Oplog]; ns != nil {
+		for _, ev := range ns.Documents.List {
+			if op, _ := bsonkit.Get(ev, "operationType").(string); op != "delete" {
+				continue
+			}
+			db, _ := bsonkit.Get(ev, "ns.db").(string)
+			coll, _ := bsonkit.Get(ev, "ns.coll").(string)
+			id, _ := bsonkit.Get(ev, "documentKey._id").(string)
+			h := lungo.Handle{db, coll}
+			if sn.deleted[h] == nil {
+				sn.deleted[h] = map[string]int{}
+			}
+			sn.deleted[h][id]++
+		}
 	}
 	return sn
 }
@@ -705,9 +728,6 @@ func (s *tcScn) judge(sn tcSnap, phase string) (kept []*tcDoc, soonFresh, soonBo
 		}
 		here := sn.present[d.h][d.id]
 		where := fmt.Sprintf("%s: %s.%s %s kind=%s", phase, d.h[0], d.h[1], vj.Enc(d.doc), d.kind)
-		if !here && d.client {
-			continue // the audit decides by the oplog: removed by the expiry (C19) or lost (C04)
-		}
 		if !here {
 			fresh := d.x == tcNever || sn.t1 < d.x-int64(tcFreshMargin/time.Millisecond)
 			if !fresh {
@@ -718,6 +738,9 @@ func (s *tcScn) judge(sn tcSnap, phase string) (kept []*tcDoc, soonFresh, soonBo
 				when = fmt.Sprintf("expires %d ms after the snapshot", d.x-sn.t1)
 			}
 			switch {
+			case sn.deleted[d.h][d.id] == 0:
+				// nothing in the change log says that it was deleted: not an expiry removal but a lost write
+				s.violP("C04", "ttl-clock:ack-lost", "an acknowledged insert is not in the state any more although the change log has no delete event for it", where+" ("+when+")")
 			case !d.ttlColl:
 				s.viol("ttl-clock:non-ttl-collection-touched", "a document of a collection without TTL index was removed by the periodic expiry", where)
 			case !d.hasDate:
@@ -802,8 +825,6 @@ func (s *tcScn) audit(sn tcSnap) (maxLatency int64) {
 		switch {
 		case here && len(evs) != 0:
 			s.viol("ttl-clock:delete-events", "a document that is still present has a delete event", where)
-		case !here && len(evs) == 0 && d.client:
-			s.violP("C04", "ttl-clock:ack-lost", "an acknowledged insert is neither in the final state nor was it deleted according to the change log", where)
 		case !here && len(evs) != 1:
 			s.viol("ttl-clock:delete-events", "a removed document does not have exactly one delete event", where)
 		}
